@@ -89,9 +89,12 @@ type executor struct {
 	wroteIndented bool
 	venv *venv
 	mapOrder int
+	mapPermuted int // map ranges given a non-identity order since the last verifSetMapOrder
+	mapSeen     int // map ranges of >= 2 entries executed since the last verifSetMapOrder(<0)
 	replaced map[string]bool
 	replOn   map[string]bool
 	evlog []outRec // environment events (stdout writes, file writes...) in order
+	schedLog []string // scheduler decisions (goroutine switches) in order
 }
 
 func (e *executor) event(kind string, v value) {
@@ -337,7 +340,15 @@ func (e *executor) permute(live []*mentry) []*mentry {
 		}
 		perms = [][]int{id, rev, rot}
 	}
-	k := e.chooseN(len(perms), nil)
+	var k int
+	if e.mapOrder <= -2 {
+		k = 1 + e.chooseN(len(perms)-1, nil) // single-range mode: the insertion order is the reference run
+	} else {
+		k = e.chooseN(len(perms), nil)
+	}
+	if k != 0 {
+		e.mapPermuted++
+	}
 	out := make([]*mentry, n)
 	for i, j := range perms[k] {
 		out[i] = live[j]
